@@ -42,18 +42,7 @@ def rule_wr_order(cx, rep, port):
         c = chain.get(cname)
         if c is None:
             return None
-        attrs = roles.self_attrs_assigned(roles.methods(c)['__init__'])
-        if 'top_count' in attrs:
-            return 'top'
-        if 'seen' in attrs:
-            return 'uniq'
-        if 'records' in attrs:
-            return 'ucnt'
-        if 'reverse_sort' in attrs:
-            return 'sort'
-        if 'aggregation_keys' in attrs:
-            return 'agg'
-        return None
+        return roles.writer_kind(c)
     rank = {'top': 0, 'uniq': 1, 'ucnt': 1, 'sort': 2}
     bad = {}
     good = 0
@@ -183,7 +172,7 @@ def rule_hd_arity(cx, rep, port):
         c = chain.get(cname)
         if c is None:
             return 0
-        return 1 if 'records' in roles.self_attrs_assigned(roles.methods(c)['__init__']) else 0
+        return 1 if roles.writer_kind(c) == 'ucnt' else 0
     bad = {}
     good = 0
     n_plus = 0
